@@ -23,6 +23,7 @@ package compile
 import (
 	"errors"
 	"fmt"
+	"math"
 
 	"go.uber.org/thriftrw/ast"
 )
@@ -88,8 +89,13 @@ func (c ConstantBool) Link(scope Scope, t TypeSpec) (ConstantValue, error) {
 func (c ConstantInt) Link(scope Scope, t TypeSpec) (ConstantValue, error) {
 	rt := RootTypeSpec(t)
 	switch spec := rt.(type) {
-	case *I8Spec, *I16Spec, *I32Spec, *I64Spec:
-		// TODO bounds checks?
+	case *I8Spec:
+		return c.inRange(t, math.MinInt8, math.MaxInt8)
+	case *I16Spec:
+		return c.inRange(t, math.MinInt16, math.MaxInt16)
+	case *I32Spec:
+		return c.inRange(t, math.MinInt32, math.MaxInt32)
+	case *I64Spec:
 		return c, nil
 	case *DoubleSpec:
 		return ConstantDouble(float64(c)).Link(scope, t)
@@ -106,7 +112,7 @@ func (c ConstantInt) Link(scope Scope, t TypeSpec) (ConstantValue, error) {
 		}
 	case *EnumSpec:
 		for _, item := range spec.Items {
-			if item.Value == int32(c) {
+			if int64(item.Value) == int64(c) {
 				return EnumItemReference{Enum: spec, Item: &item}, nil
 			}
 		}
@@ -115,13 +121,26 @@ func (c ConstantInt) Link(scope Scope, t TypeSpec) (ConstantValue, error) {
 			Value: c,
 			Type:  t,
 			Reason: fmt.Errorf(
-				"%v is not a valid value for enum %q", int32(c), spec.ThriftName()),
+				"%v is not a valid value for enum %q", int64(c), spec.ThriftName()),
 		}
 	}
 
 	return nil, constantValueCastError{Value: c, Type: t}
 	// TODO: AST for constants will need to track positions for us to
 	// include them in the error messages.
+}
+
+// inRange returns the constant if it lies between min and max, the bounds of
+// the integer type t.
+func (c ConstantInt) inRange(t TypeSpec, min, max int64) (ConstantValue, error) {
+	if int64(c) < min || int64(c) > max {
+		return nil, constantValueCastError{
+			Value:  c,
+			Type:   t,
+			Reason: fmt.Errorf("the value must be in the range [%v, %v]", min, max),
+		}
+	}
+	return c, nil
 }
 
 // Link for ConstantString.
